@@ -81,6 +81,15 @@ Theorem C17_oracle_sound : forall c : case, corr_b c = true -> prop_b c = true.
 Proof. exact oracle_sound. Qed.
 Print Assumptions C17_oracle_sound.
 
+(** Persist/restore steps (serialise the summary, deserialise it, continue) anywhere in a history
+    do not change any later state of the model: a history with such steps ends in the state of
+    the history without them.  (On the implementation side the harness checks that the restored
+    value equals the original and continues on the restored one.) *)
+Theorem C17_persist_invariant : forall ops s,
+  fold_left ds_step ops s = fold_left ds_update (dvals ops) s.
+Proof. exact persist_invariant. Qed.
+Print Assumptions C17_persist_invariant.
+
 (** Non-vacuity: a concrete dataset with negatives, a repeat and widely different magnitudes. *)
 Definition c17_example : list Qc :=
   [Q2Qc (10 # 1); Q2Qc (-25 # 10); Q2Qc (10 # 1); Q2Qc (1000000 # 1); Q2Qc (1 # 1000)].
